@@ -308,6 +308,16 @@ def check_case(case):
         return Verdict("excluded", finding="parse/walk raised %s (C03/C11's subject)" % type(e).__name__)
     if any(t["type"] == "SerializeError" for t in stream):
         return Verdict("excluded", finding="walker error token (C11 known finding)")
+    rerender = bool(case.get("rerender"))
+    if rerender:
+        # a caller that keeps the token list and renders it more than once (tokens = list(walker(tree))): the second rendering is given
+        # the very same token objects; nothing of the first may be missing from it.  (Sorted attribute order is the one thing an
+        # alphabetical_attributes run leaves behind in the caller's tokens, so this leg is stated for sorted output.)
+        opts["alphabetical_attributes"] = True
+        try:
+            HTMLSerializer(omit_optional_tags=False, alphabetical_attributes=True, quote_attr_values="always").render(stream)
+        except Exception:
+            pass
     alphabetical = bool(opts.get("alphabetical_attributes"))
     # what was *given* is the tree: the expected tokens come from our own traversal, html5lib's walker only feeds the serializer
     from vf import obs
@@ -347,7 +357,7 @@ def check_case(case):
         given = g2
     ser = HTMLSerializer(omit_optional_tags=False, inject_meta_charset=inject, **opts)
     try:
-        out = ser.render(iter([dict(t, data=dict(t["data"])) if isinstance(t.get("data"), dict) else dict(t) for t in stream]), enc)
+        out = ser.render(iter(stream) if rerender else iter([dict(t, data=dict(t["data"])) if isinstance(t.get("data"), dict) else dict(t) for t in stream]), enc)
         if enc:
             out = out.decode(enc)
     except UnicodeEncodeError as e:
@@ -436,6 +446,8 @@ def run_shard(desc, seed, tier):
         case = {"text": head + text, "container": container, "scripting": scripting, "walker": "etree" if o.get("strip_whitespace") else walker, "opts": o}
         if od[-1] % 5 == 0:
             case["namespace"] = False
+        if od[-2] % 6 == 0:
+            case["rerender"] = True
         acc.add(case, check_case(case))
     drive(strat, fn, desc["n"], seed)
     return acc
